@@ -60,7 +60,7 @@ def engine_b(pid, spec, tier, work, agg, repo, jobs):
         futs = {}
         for (m, i, ll, so, of, params) in jobsl:
             cmd = ['python3-vt', os.path.abspath(__file__), '--worker', m, str(i), ll, so, tier, of, json.dumps(params)]
-            futs[ex.submit(subprocess.run, cmd, stdout=subprocess.PIPE, stderr=subprocess.STDOUT, text=True, timeout=spec.get('b_timeout_s', {}).get(tier, 3000))] = (m, i, of)
+            futs[ex.submit(subprocess.run, cmd, stdout=subprocess.PIPE, stderr=subprocess.STDOUT, text=True, timeout=spec.get('b_timeout_s', {}).get(tier, 900 if tier == 'quick' else 3000))] = (m, i, of)
         for f in cf.as_completed(futs):
             m, i, of = futs[f]
             try:
